@@ -901,6 +901,8 @@ impl Interpreter {
 
         // A run that failed or was abandoned never finalised its exports: the table is per run
         self.exports.clear();
+        // ... and a program of an earlier run that still waits for its imports is superseded
+        self.pending_program = None;
 
         // Set main module path if this is the entry point
         if self.main_module_path.is_none() {
@@ -1449,6 +1451,8 @@ impl Interpreter {
 
         // A run that failed or was abandoned never finalised its exports: the table is per run
         self.exports.clear();
+        // ... and a program of an earlier run that still waits for its imports is superseded
+        self.pending_program = None;
 
         // Set main module path if this is the entry point
         if self.main_module_path.is_none() {
